@@ -102,3 +102,15 @@ Fixpoint push_all (cap : N) (q : evq) (l : list (N * N)) : evq :=
     and that the queue no longer holds: it can never be reported *)
 Definition evicted_undelivered (q : evq) (seen n : N) : bool :=
   (seen <? n) && (n <? q_next q) && negb (retained q n).
+
+(** * executable form of the queue invariant (evaluated on dumps of the real queue) *)
+Fixpoint ascending (lo : N) (l : list ev) : bool :=
+  match l with
+  | [] => true
+  | e :: t => (lo <? v_num e) && ascending (v_num e) t
+  end.
+
+Definition qinv_b (cap : N) (q : evq) : bool :=
+  ascending 0 (all_events q) && forallb (fun e => v_num e <? q_next q) (all_events q) &&
+  (used (q_crit q) <=? cap) && (used (q_info q) <=? cap) && (used (q_dbg q) <=? cap) &&
+  forallb (fun e => 2 <=? v_prio e) (q_crit q) && forallb (fun e => 1 <=? v_prio e) (q_info q).
